@@ -6,7 +6,9 @@ R: Gen_Cache histories (exhaustive short + seeded -simulate long) carry, for eve
    the specification allows; replayed through the real hickory_resolver::ResponseCache on a
    virtual clock.
 T: seeded random histories over random TTL configurations are recorded from the real cache and
-   validated event by event by the TLA+ monitor Trace_Cache (operators of CacheOps).
+   validated event by event by the TLA+ monitor Trace_Cache (operators of CacheOps); the same for
+   CachingClient over a scripted upstream on tokio's paused clock (hook H6), where the negative
+   TTL of an upstream NXDOMAIN/NODATA is derived by the specification from its SOA (RFC 2308 5).
 """
 import os
 
@@ -114,6 +116,15 @@ def run(res, tier, seed):
     tpath = os.path.join(wd, "random.trace.ndjson")
     vlib.run_driver("drive_cache", ["record", "--trace", tpath, "--n", str(n_rand), "--ops", "150", "--seed", str(seed)],
                     stdout_path=os.path.join(wd, "random.out"))
+    # caching-client layer (CachingClient over a scripted upstream, tokio's paused clock, hook H6):
+    # the same monitor, with the negative TTL derived by the specification from the SOA
+    n_client = 500 if tier == "thorough" else 60
+    cpath2 = os.path.join(wd, "client.trace.ndjson")
+    vlib.run_driver("drive_cache", ["record-client", "--trace", cpath2, "--n", str(n_client), "--ops", "150", "--seed", str(seed)],
+                    stdout_path=os.path.join(wd, "client.out"))
+    with open(tpath, "a") as out, open(cpath2) as f:
+        for line in f:
+            out.write(line)
     mism, tst = vlib.trace_check_parallel(os.path.join(vlib.SPEC, "Trace_Cache.tla"), os.path.join(vlib.SPEC, "Trace_Cache.cfg"),
                                           wd, tpath, shards=12 if tier == "thorough" else 6, timeout=3000)
     thits = 0
@@ -127,8 +138,9 @@ def run(res, tier, seed):
             case_hits[cur] = case_hits.get(cur, 0) + 1
     if thits == 0:
         raise vlib.ToolError("vacuous trace: no hits recorded")
-    res.traces += n_rand
-    res.evaluations += n_rand
+    res.traces += n_rand + n_client
+    res.evaluations += n_rand + n_client
+    res.extra["caching_client_cases"] = n_client
     for c in case_hits:
         res.nontrivial.add("t" + c)
     res.extra["trace_events_validated"] = tst["distinct"]
